@@ -263,15 +263,23 @@ Definition slack_check (g : dglobal) (b : ibody) : res unit :=
   let auth := if Nat.eqb (ib_http b) 0 then Nat.eqb (g_http g) 2 else Nat.eqb (ib_http b) 2 in
   fail_if (tok && auth) E_SLACK_AUTH.
 
+Definition body_check (g : dglobal) (kind : string) (b : ibody) : res unit :=
+  if String.eqb kind "slack" then slack_check g b
+  else if String.eqb kind "msteamsv2" then
+    (* copies *c.Global.HTTPConfig, or reads c.Global.HTTPConfig.ProxyURL when the item's own has no proxy_url *)
+    if Nat.eqb (g_http g) 0 && (Nat.eqb (ib_http b) 0 || negb (ib_proxy b)) then Panic else Ok tt
+  else first_err (map (fun alts => fail_if (negb (req_met g b alts)) E_INT_SETTING) (kind_reqs kind)).
+
+(* a null item: 14 kinds reject it ("missing <kind> config"); for slack, opsgenie, wechat and rocketchat the loop
+   replaces it IN THE LIST by an empty config (fix 1f76f27: before, only the loop variable was replaced and the nil
+   stayed in the receiver) and validates that *)
+Definition empty_body : ibody := IBody 0 false [] None false.
+Definition null_tolerated (kind : string) : bool := smem kind ["slack"; "opsgenie"; "wechat"; "rocketchat"].
+
 Definition int_check (g : dglobal) (kind : string) (o : option ibody) : res unit :=
   match o with
-  | None => Err E_INT_NULL
-  | Some b =>
-    if String.eqb kind "slack" then slack_check g b
-    else if String.eqb kind "msteamsv2" then
-      (* copies *c.Global.HTTPConfig, or reads c.Global.HTTPConfig.ProxyURL when the item's own has no proxy_url *)
-      if Nat.eqb (g_http g) 0 && (Nat.eqb (ib_http b) 0 || negb (ib_proxy b)) then Panic else Ok tt
-    else first_err (map (fun alts => fail_if (negb (req_met g b alts)) E_INT_SETTING) (kind_reqs kind))
+  | None => if null_tolerated kind then body_check g kind empty_body else Err E_INT_NULL
+  | Some b => body_check g kind b
   end.
 
 Definition receiver_ints_check (g : dglobal) (r : dreceiver) : res unit :=
